@@ -122,6 +122,22 @@ pub fn run(tier: Tier) -> Run {
     }
     // typed literals under id relabellings and behind function boundaries (conforming ones only)
     work.extend(crate::checks::c03::context_variants().into_iter().filter(|(_, s)| !s.id.contains(":type14:")));
+    // every OpExtension name the grammar mentions in front of each width-sensitive context (one value per type)
+    {
+        let names: Vec<Inst> = crate::checks::c10::preludes().into_iter().filter(|i| i.name() == "Extension").collect();
+        let ctx = type_context();
+        for (pre, s) in context_shapes() {
+            if s.id.contains(":type14:") || !(s.id.contains(":val1") || s.id.contains(":cases1")) {
+                continue;
+            }
+            for e in &names {
+                let mut p = vec![e.clone()];
+                p.extend(ctx.iter().cloned());
+                p.extend(pre.iter().cloned());
+                work.push((p, Shape { id: format!("{}:after-extension", s.id), inst: s.inst.clone() }));
+            }
+        }
+    }
     // OpExtInst behind imports of named sets: its trailing operands are ids whatever the set
     work.extend(crate::checks::c03::ext_inst_variants());
     let ctx = type_context();
